@@ -65,7 +65,7 @@ func (idx Index) Run(
 
 	// Always check all upstream stages.
 	for artPath, art := range stg.Inputs {
-		ownerPath, _ := idx.findOwner(artPath)
+		ownerPath, upstreamArt := idx.findOwner(artPath)
 		if ownerPath == "" {
 			artStatus, err := ch.Status(rootDir, *art, true)
 			if err != nil {
@@ -83,6 +83,13 @@ func (idx Index) Run(
 				doRun = true
 				runReason = "upstream stage out-of-date"
 			}
+		}
+		// The owner may have been re-run and committed on its own since this
+		// stage was last committed. Then nothing upstream is out-of-date, but
+		// the input is no longer the one this stage recorded.
+		if ownerPath != "" && art.Checksum != upstreamArt.Checksum {
+			doRun = true
+			runReason = "input out-of-date"
 		}
 	}
 
